@@ -931,8 +931,11 @@ def monitor_lin(line):
         r = b.split(" G ")[0].split()
         kkt = fh(r[0]); al2 = [fh(v) for v in r[2:2 + K + 1]]; mu = [fh(v) for v in r[3 + K:3 + 2 * K]]; w2 = [fh(v) for v in r[3 + 2 * K:3 + 2 * K + K * d]]
         nvar = 1 if typ == "MMR" else K
+        # box-type machines clip to exactly C; the simplex-type ones compute a_up + m with m <= a_down, sum = C: exact arithmetic
+        # keeps alpha(c) <= C (C16_linear_solveSub_simplex_partial), floating point can exceed it by rounding (a few ulp of C)
+        ub = C * (1.0 + 4 * EPSM * K) if typ in LSIMPLEX else C
         for c in range(nvar):
-            if not (0.0 <= al2[c] <= C): return ("constraints", "%s: alpha(%d)=%r outside [0, C=%r] after the step" % (typ, c, al2[c], C)), None
+            if not (0.0 <= al2[c] <= ub): return ("constraints", "%s: alpha(%d)=%r outside [0, C=%r] after the step" % (typ, c, al2[c], C)), None
             if not abs(al2[c] - (al[c] + mu[c])) <= 4 * EPSM * (abs(al[c]) + abs(mu[c]) + C): return ("bookkeeping", "%s: alpha(%d)=%r but old value + step = %r" % (typ, c, al2[c], al[c] + mu[c])), None
         if typ in LSIMPLEX:
             sm = math.fsum(al2[:K])
